@@ -1,6 +1,7 @@
 package props
 
 import (
+	"runtime/debug"
 	"fmt"
 	"math"
 	"math/big"
@@ -145,6 +146,26 @@ func genQuads(t *rapid.T) []quadIn {
 			q.E[0] = math.Float32frombits(math.Float32bits(float32(1+uni(t, "ex", 1000))/100) + uint32(uni(t, "ulp", 5)))
 			q.E[2] = float32(1+uni(t, "ez", 1000)) / 100
 		}
+		// one quad in four has an edge on (or a few float32 steps off) a cell boundary: the cell an
+		// edge falls into must not depend on where the grid's origin is when it is computed
+		if uni(t, "edge_on_boundary", 4) == 0 {
+			k := []int{0, 2}[uni(t, "edge_axis", 2)]
+			b := float32(2 * (uni(t, "boundary", 61) - 30))
+			for j, n := 0, uni(t, "ulps", 5)-2; j != n; {
+				if n > 0 {
+					b = math.Nextafter32(b, 1e9)
+					j++
+				} else {
+					b = math.Nextafter32(b, -1e9)
+					j--
+				}
+			}
+			if uni(t, "edge_side", 2) == 0 {
+				q.C[k] = b - q.E[k]
+			} else {
+				q.C[k] = b + q.E[k]
+			}
+		}
 		for _, k := range []int{0, 2} {
 			if q.C[k] > 64 {
 				q.C[k] = 64
@@ -185,7 +206,17 @@ func runGrid(qs []quadIn, excludeNearBoundary bool) (viol string, gr gridRun) {
 		}
 		minx0, _, minz0 := xyz(g.Min)
 		m0 := g.MergeCount
-		g.InsertQuad(dagaz.NewQuadFromProtobuf(qi.proto()))
+		if pv := func() (pv string) {
+			defer func() {
+				if r := recover(); r != nil {
+					pv = fmt.Sprintf("%v\n%s", r, firstFrames(debug.Stack()))
+				}
+			}()
+			g.InsertQuad(dagaz.NewQuadFromProtobuf(qi.proto()))
+			return ""
+		}(); pv != "" {
+			return fmt.Sprintf("inserting quad %d of %d panicked: %s", i+1, len(qs), pv), gr
+		}
 		minx1, _, minz1 := xyz(g.Min)
 		if g.MergeCount > m0 {
 			gr.merges += int(g.MergeCount - m0)
